@@ -45,6 +45,9 @@ type shim struct {
 	f    string   // intrinsic / function name in GoMini
 	res  []string // static result types
 	flds []string // kind "extfld": receiver fields passed first and assigned first
+	// trace (kind "extstmt"): name of a mapped pseudo-field; before the call, the tuple of the call's arguments
+	// (receiver first) is appended to it — a record of what the callee was handed
+	trace string
 }
 
 type fieldSpec struct {
@@ -60,6 +63,7 @@ type transFunc struct {
 	fields  map[string]fieldSpec   // receiver field → GoMini field
 	types   map[string]string      // Go type text → static type (named types of zap and the std lib)
 	consts  map[string]string      // named constants: Go text → integer literal (decimal) or "bool:true"
+	recvAs  *fieldSpec             // the receiver VALUE itself (a slice type such as multiWriteSyncer) as a field
 	structs map[string][]fieldSpec // struct types passed by value: static type "struct:<name>" is a list of these fields
 	calls   map[string]shim        // "<static type or package>.<Name>" → meaning
 }
@@ -274,6 +278,10 @@ func (x *xl) place(e ast.Expr) (lv string, rd string, typ string, ok bool) {
 	case *ast.Ident:
 		if v, ok := x.lookup(t.Name); ok {
 			return "(.loc " + leanStr(v.lean) + ")", "(.loc " + leanStr(v.lean) + ")", v.typ, true
+		}
+		if t.Name == x.recvVar && x.recvVar != "" && x.fn.recvAs != nil {
+			f := x.fn.recvAs
+			return "(.fld " + leanStr(f.lean) + ")", "(.fld " + leanStr(f.lean) + ")", f.typ, true
 		}
 	case *ast.SelectorExpr:
 		if id, ok := t.X.(*ast.Ident); ok && id.Name == x.recvVar && x.recvVar != "" {
@@ -524,11 +532,12 @@ type tcall struct {
 	args []string
 	res  []string
 	// for mut/set:
-	targetLV string
-	value    string
-	pre      []string // extfld: places assigned before the declared results
-	recvRd   string   // addret / cas: the receiver as an expression
-	old, new string   // cas
+	targetLV  string
+	value     string
+	pre       []string // extfld: places assigned before the declared results
+	traceStmt string   // extstmt with a trace: executed before the call
+	recvRd    string   // addret / cas: the receiver as an expression
+	old, new  string   // cas
 }
 
 var pendingCall *tcall
@@ -704,6 +713,14 @@ func (x *xl) callExpr(c *ast.CallExpr) (tx, bool) {
 		}
 		addArgs()
 		pendingCall = &tcall{ctor: "callX", f: sh.f, args: args, res: sh.res}
+		if sh.trace != "" {
+			fs, ok := x.fn.fields[sh.trace]
+			if !ok {
+				x.fail(c, "shim %s names the unmapped trace field %s", key, sh.trace)
+			}
+			pendingCall.traceStmt = "(.assign [(.fld " + leanStr(fs.lean) + ")] [(.call \"append\" [(.fld " + leanStr(fs.lean) +
+				"), (.call \"tuple\" [" + strings.Join(args, ", ") + "])])])"
+		}
 		return tx{}, true
 	case "extfld":
 		// statement  flds…, lhs… = f(flds…, args…): an untranslated method of the receiver that reads and writes the listed fields
@@ -1091,6 +1108,9 @@ func (x *xl) emitCall(n ast.Node, pc *tcall, lvs []string, ltyps []string) strin
 			}
 		}
 		lvs = append(append([]string{}, pc.pre...), lvs...)
+		if pc.traceStmt != "" {
+			return block([]string{pc.traceStmt, "(." + pc.ctor + " [" + strings.Join(lvs, ", ") + "] " + leanStr(pc.f) + " [" + strings.Join(pc.args, ", ") + "])"})
+		}
 		return "(." + pc.ctor + " [" + strings.Join(lvs, ", ") + "] " + leanStr(pc.f) + " [" + strings.Join(pc.args, ", ") + "])"
 	}
 	x.fail(n, "internal: call ctor %q", pc.ctor)
@@ -1527,6 +1547,9 @@ func (x *xl) function() (lean string, err error) {
 	var fl []string
 	for k, f := range x.fn.fields {
 		fl = append(fl, "field "+k+" ↦ "+f.lean+" "+f.typ)
+	}
+	if x.fn.recvAs != nil {
+		fl = append(fl, "receiver value ↦ "+x.fn.recvAs.lean+" "+x.fn.recvAs.typ)
 	}
 	sort.Strings(fl)
 	for _, l := range fl {
